@@ -71,7 +71,8 @@ EXPECT_PROBES = ["decl_before_reg", "reg_before_decl", "chained_register",
                  "reregister", "empty_deps", "dup_deps", "redeclared",
                  "listen_args", "falsy_component",
                  "argument_mutated_after_declaration",
-                 "core_name_per_instance", "registration_listener_raised"]
+                 "core_name_per_instance", "registration_listener_raised",
+                 "quit_from_goingdown_handler"]
 
 # known-finding ids (tolerated only when listed as open in
 # /verif/known_findings.json, each at exactly the signature described)
@@ -183,6 +184,7 @@ def gen_plan(seed, tier):
                                             (6, "manual")])}
   cfg = {"comps": comps, "waiters": waiters, "holders": holders,
          "pump_in_goingup": r.chance(0.2)}
+  cfg["quit_in_goingdown"] = Rng(mix(seed, "qgd")).chance(0.25)
   r9 = Rng(mix(seed, "creg"))
   if r9.chance(0.25):
     # a ComponentRegistered listener on core that raises for these names
@@ -535,6 +537,23 @@ class Harness(object):
                                               self.life))
     elif self.down:
       self.fail("goingdown-after-down", "GoingDownEvent after DownEvent")
+    if self.cfg.get("quit_in_goingdown") and self.gd == 1 \
+        and self.viol is None:
+      # some component's clean-up (shared between "I failed" and "core is
+      # stopping") calls core.quit() itself, from a thread that is not the
+      # scheduler's: the shutdown in progress is the only one there is
+      self.probe("quit_from_goingdown_handler")
+      self.quit_calls += 1
+      sched = self.core.scheduler
+      saved = sched._thread
+      sched._thread = None
+      try:
+        self.core.quit()
+      except Exception as e:
+        self.fail("exception-escaped/quit/" + type(e).__name__,
+                  "%s: %s" % (type(e).__name__, str(e)[:200]))
+      finally:
+        sched._thread = saved
 
   def _on_down(self, event):
     self.down += 1
